@@ -64,8 +64,12 @@ fn all_stamps(v: &ReplicatedValue) -> Vec<(u64, u64)> {
     s
 }
 
-fn new_node() -> ReplicatedShardedState<VerifTime> {
-    let cfg = ReplicationConfig { enabled: true, replica_id: 1, ..Default::default() };
+fn new_node(causal: bool) -> ReplicatedShardedState<VerifTime> {
+    let mut cfg = ReplicationConfig { enabled: true, replica_id: 1, ..Default::default() };
+    if causal {
+        // values then carry vector clocks next to their Lamport stamps; a restart loses the shard's vector clock
+        cfg.consistency_level = redis_sim::replication::ConsistencyLevel::Causal;
+    }
     ReplicatedShardedState::with_time_source(cfg, VerifTime::new(1_000))
 }
 
@@ -242,15 +246,21 @@ struct Case {
     /// how the emitted deltas are grouped into segments: 0 = one flush per event, 1 = the last two
     /// events share a segment, 2 = a single flush at the end
     group: usize,
+    /// the node runs with ConsistencyLevel::Causal
+    causal: bool,
 }
 
 impl Case {
     fn json(&self) -> serde_json::Value {
         json!({"events": self.events.iter().map(|e| EVENTS[*e]).collect::<Vec<_>>(),
                "recover_from": self.src.map(|s| json!({"segments": s.segments, "checkpoint": s.checkpoint, "wal": s.wal})),
-               "post_restart_write": POST[self.post], "segment_grouping": self.group})
+               "post_restart_write": POST[self.post], "segment_grouping": self.group, "causal": self.causal})
     }
     fn src_label(&self) -> String {
+        let base = self.src_label_base();
+        if self.causal { format!("{base} causal") } else { base }
+    }
+    fn src_label_base(&self) -> String {
         match self.src {
             None => "no-crash".into(),
             Some(s) => {
@@ -273,7 +283,7 @@ impl Case {
 fn run_case(case: &Case) -> Result<String, (String, String)> {
     RT.with(|rt| {
         rt.block_on(async {
-            let node = new_node();
+            let node = new_node(case.causal);
             let p1 = run_phase1(&node, &case.events).await;
             if let Some(m) = &p1.monotonic_violation {
                 return Err((format!("stamp-not-increasing phase1 last-event={}", EVENTS[*case.events.last().unwrap()].split(' ').take(2).collect::<Vec<_>>().join(" ")), format!("{}: {m}", case.json())));
@@ -293,7 +303,7 @@ fn run_case(case: &Case) -> Result<String, (String, String)> {
                     drop(node);
                     let (store, wal) = persist(&p1, src, case.group);
                     let rec = recover(&store, &wal).map_err(|e| ("harness: recovery failed".to_string(), e))?;
-                    let n2 = new_node();
+                    let n2 = new_node(case.causal);
                     // server start-up order: object store first, then WAL replay
                     n2.apply_recovered_state(rec.checkpoint.clone(), rec.deltas.clone());
                     n2.apply_recovered_state(None, rec.wal_deltas.clone());
@@ -363,6 +373,7 @@ fn main() {
             src: if r["recover_from"].is_null() { None } else { Some(Sources { segments: r["recover_from"]["segments"].as_bool().unwrap(), checkpoint: r["recover_from"]["checkpoint"].as_bool().unwrap(), wal: r["recover_from"]["wal"].as_bool().unwrap() }) },
             post: POST.iter().position(|x| *x == r["post_restart_write"].as_str().unwrap()).unwrap(),
             group: r["segment_grouping"].as_u64().unwrap_or(0) as usize,
+            causal: r["causal"].as_bool().unwrap_or(false),
         };
         match run_case(&case) {
             Ok(o) => {
@@ -404,7 +415,7 @@ fn main() {
     for s in &seqs {
         for src in &sources {
             for post in 0..POST.len() {
-                cases.push(Case { events: s.clone(), src: *src, post, group: 0 });
+                cases.push(Case { events: s.clone(), src: *src, post, group: 0, causal: false });
             }
         }
     }
@@ -421,8 +432,19 @@ fn main() {
         for src in sources.iter().flatten().filter(|s| s.segments) {
             for post in 0..POST.len() {
                 for group in [1usize, 2] {
-                    cases.push(Case { events: s.clone(), src: Some(*src), post, group });
+                    cases.push(Case { events: s.clone(), src: Some(*src), post, group, causal: false });
                 }
+            }
+        }
+    }
+    // causal consistency level: every sequence of <= 2 (thorough 3) events, every source set, every post-restart write
+    let causal_len = if thorough { 3 } else { 2 };
+    let mut causal_cases = 0u64;
+    for s in seqs.iter().filter(|s| s.len() <= causal_len) {
+        for src in &sources {
+            for post in 0..POST.len() {
+                cases.push(Case { events: s.clone(), src: *src, post, group: 0, causal: true });
+                causal_cases += 1;
             }
         }
     }
@@ -442,7 +464,8 @@ fn main() {
     let coverage = json!({
         "evaluations": n.load(Ordering::Relaxed),
         "distinct_nontrivial": checked,
-        "rule": "every sequence of <=3 events (thorough adds length 4 over 6 core events) over {8 local writes on a string key, a hash key (single- and three-field HSET, HDEL) and a counter; 7 remote deltas from replicas 2/3 with stamps small / equal to the local one / far ahead, incl. a remote delete and a remote hash} on a real ReplicatedShardedState, with a crash after the last event and recovery from each of the 7 non-empty subsets of {segments, checkpoint, WAL} (plus the no-crash variant), followed by each of 15 further writes (one per command of the replicated set: SET plain / EX / KEEPTTL, GETSET, APPEND, INCR, DECR, INCRBY, DECRBY, DEL, HSET, HDEL, HINCRBY); plus every sequence of exactly 4 local events over 6 core events (incl. a three-field HSET, which advances the stamp by 3) with the emitted deltas grouped into segments so that the last two events (or all events) share a segment; a case is non-trivial when the post-restart write produced a delta for a key the node had observed, so that all three oracles (stamp strictly greater; a peer holding the observed value serves the new one after merging; a second recovery serves the new one) were evaluated",
+        "rule": "every sequence of <=3 events (thorough adds length 4 over 6 core events) over {8 local writes on a string key, a hash key (single- and three-field HSET, HDEL) and a counter; 7 remote deltas from replicas 2/3 with stamps small / equal to the local one / far ahead, incl. a remote delete and a remote hash} on a real ReplicatedShardedState, with a crash after the last event and recovery from each of the 7 non-empty subsets of {segments, checkpoint, WAL} (plus the no-crash variant), followed by each of 15 further writes (one per command of the replicated set: SET plain / EX / KEEPTTL, GETSET, APPEND, INCR, DECR, INCRBY, DECRBY, DEL, HSET, HDEL, HINCRBY); plus every sequence of exactly 4 local events over 6 core events (incl. a three-field HSET, which advances the stamp by 3) with the emitted deltas grouped into segments so that the last two events (or all events) share a segment; plus, on a node running with ConsistencyLevel::Causal (values carry vector clocks, which a restart does not restore), every sequence of <= 2 (thorough 3) events x every source set x every further write; a case is non-trivial when the post-restart write produced a delta for a key the node had observed, so that all three oracles (stamp strictly greater; a peer holding the observed value serves the new one after merging; a second recovery serves the new one) were evaluated",
+        "causal_consistency_cases": causal_cases,
         "event_sequences": seqs.len(),
         "recovery_source_sets": sources.len(),
         "cases": cases.len(),
